@@ -581,6 +581,22 @@ def r6(run, ctx):
         ok_min = True
     run.check('R6', ok_min and pool is not None, 'the smallest free id is chosen', f, rets[0].ast,
               'the next wid is not the smallest free id')
+    # every other way out with a value must draw from the same pool of free ids
+    for other in rets[1:]:
+        ov = other.ast.value
+        drawn = None
+        if isinstance(ov, ast.Subscript):
+            b_ = expand(ov.value)
+            if isinstance(b_, ast.Call) and dotted(b_.func) in ('sorted', 'list') and b_.args:
+                drawn = b_.args[0]
+        elif isinstance(ov, ast.Call) and dotted(ov.func) in ('min', 'max') and ov.args:
+            drawn = ov.args[0]
+        run.check('R6', drawn is not None and pool is not None and
+                  norm_text(expand(drawn)) == norm_text(expand(pool)),
+                  'every id handed out is drawn from the free ids', f, other.ast,
+                  '_nextwid has a way out (%s) whose value is not drawn from the ids no tracked '
+                  'worker uses: two live workers can get the same wid' % norm_text(other.ast),
+                  construct='wid not drawn from the free pool')
     used = allw = None
     if isinstance(pool, ast.BinOp) and isinstance(pool.op, ast.Sub):
         allw, used = expand(pool.left), expand(pool.right)
